@@ -133,9 +133,18 @@ Print Assumptions c28_mailbox_closed_after_drain.
 
 Theorem c28_model_satisfies_monitor : forall c evs final,
   cfg_ok c -> (c_closeonerr c = true -> Forall nopanic evs) -> (final = true -> quiescent (run c evs)) ->
-  monitor (c_closeonerr c) (c_nsess c) final (hist_of (run c evs)) = 0.
+  monitor (c_closeonerr c) (c_nsess c) final true (hist_of (run c evs)) = 0.
 Proof. exact model_satisfies_monitor. Qed.
 Print Assumptions c28_model_satisfies_monitor.
+
+(* the monitor's last argument (the DrainSends call issued in the quiescent final state
+   returned nil) is what the model does *)
+Theorem c28_drain_returns_when_quiescent : forall c evs d,
+  cfg_ok c -> quiescent (run c evs) -> dpcs (run c evs) d = DIdle ->
+  let st := run c (evs ++ [EDrainCall d false; EDrain d false; EDrain d false; EWaiter; EDrain d false]) in
+  exists t0 t1, In (HDrain t0 t1 true) (drains st) /\ dpcs st d = DIdle.
+Proof. exact drain_returns_when_quiescent. Qed.
+Print Assumptions c28_drain_returns_when_quiescent.
 
 (* the configuration the server composition uses (constants regenerated from the code) *)
 Theorem c28_default_config :
@@ -166,7 +175,7 @@ Example c28_example_run :
   /\ map (fun x => (hw_s x, hw_w x, hw_tag x)) (wire st)
     = [(1%nat, 7, 70); (1%nat, 0, 0); (2%nat, 0, 0); (1%nat, 0, 1)]
   /\ map hr_ok (drains st) = [true] /\ sclosed st 2%nat = true /\ admitted st = 0
-  /\ monitor true 3 true (hist_of st) = 0.
+  /\ monitor true 3 true true (hist_of st) = 0.
 Proof. vm_compute. repeat split; reflexivity. Qed.
 
 (* the two hypotheses of c28_one_ack are needed (faithful model of the code):
@@ -180,7 +189,7 @@ Example c28_closeonerr_needed :
   let st := run c evs in
   Forall nopanic evs /\ accq (sends st) 2%nat = [0] /\ ackq (wire st) 2%nat = [] /\ sclosed st 2%nat = false
   /\ wpcs st 0%nat = WIdle /\ spcs st 2%nat = SIdle /\ admitted st = 0
-  /\ monitor true 3 true (hist_of st) = 1.
+  /\ monitor true 3 true true (hist_of st) = 1.
 Proof. vm_compute. repeat split; try reflexivity. repeat constructor. Qed.
 
 (* (b) a handler panic is recovered by dispatchBatchSafely: no SENDACK, no close *)
@@ -191,7 +200,7 @@ Example c28_panic_needed :
              ++ repeat (EWork 0 CStop) 20 in
   let st := run c evs in
   accq (sends st) 1%nat = [0] /\ ackq (wire st) 1%nat = [] /\ sclosed st 1%nat = false
-  /\ wpcs st 0%nat = WIdle /\ admitted st = 0 /\ monitor true 3 true (hist_of st) = 1.
+  /\ wpcs st 0%nat = WIdle /\ admitted st = 0 /\ monitor true 3 true true (hist_of st) = 1.
 Proof. vm_compute. repeat split; reflexivity. Qed.
 
 (* the splitter on a concrete batch: maxRecords 3, maxBytes 10 *)
